@@ -31,6 +31,16 @@ pub fn pattern_to_regex_str(
     Ok(regex_str)
 }
 
+/// Escapes `-`, `&` and `~` (which form set operators of the regex syntax when doubled) when
+/// they appear as an end point of a range.
+fn escape_set_operator_char(text: String, c: char) -> String {
+    if text.len() == 1 && matches!(c, '-' | '&' | '~') {
+        std::format!("\\{c}")
+    } else {
+        text
+    }
+}
+
 peg::parser! {
     grammar pattern_to_regex_translator(enable_extended_globbing: bool) for str {
         pub(crate) rule pattern() -> String =
@@ -78,11 +88,28 @@ peg::parser! {
                         members.insert(0, String::from("^"));
                     }
 
-                    std::format!("[{}]", members.join(""))
+                    // Adjacent equal members must not read as a set operator either (`[&&a]`).
+                    let mut joined = String::new();
+                    for member in &members {
+                        if let (Some(last), Some(first)) = (joined.chars().last(), member.chars().next())
+                            && last == first
+                            && matches!(first, '-' | '&' | '~')
+                        {
+                            joined.push('\\');
+                        }
+                        joined.push_str(member);
+                    }
+
+                    std::format!("[{joined}]")
                 })
             }
 
         rule leading_close_bracket() -> String =
+            // The leading `]` may also start a range (`[]-a]`).
+            "]" "-" to:single_char_bracket_member() {?
+                let (to_str, to_c) = to;
+                if ']' <= to_c { Ok(std::format!(r"\]-{to_str}")) } else { Err("invalid range") }
+            } /
             "]" { String::from(r"\]") }
 
         rule invert_char() -> bool =
@@ -109,6 +136,10 @@ peg::parser! {
 
                 // Evaluate if the range is valid.
                 if from_c <= to_c {
+                    // An end point that would double up into a set operator of the regex
+                    // syntax (`--`, `&&`, `~~`) is escaped, so that `[--a]` stays a range.
+                    let from_str = escape_set_operator_char(from_str, from_c);
+                    let to_str = escape_set_operator_char(to_str, to_c);
                     Some(std::format!("{from_str}-{to_str}"))
                 } else {
                     None
